@@ -36,16 +36,17 @@ theorem C02_ghost_meaning (s : St) (pid : Int) (i : Nat)
   · split at h <;> cases h
   · rename_i hneg
     rw [if_neg hneg]
-    unfold mkObj at h ⊢
-    cases hf : s.kern.find pid.toNat with
-    | none => simp [hf] at h
-    | some x =>
-      simp only [hf] at h ⊢
-      simp only [Out.obj.injEq] at h
-      subst h
-      refine ⟨_, List.getElem?_concat_length, ?_, ?_, rfl, rfl⟩
-      · simp only; omega
-      · simp [Kernel.owner, hf]
+    have hm := mkObj_shape cfg s.kern s.ps pid.toNat
+    cases hmk : mkObj cfg s.kern s.ps pid.toNat with
+    | mk ps' oo =>
+      rw [hmk] at hm h
+      cases oo with
+      | none => cases h
+      | some o =>
+        simp only [Out.obj.injEq] at h
+        subst h
+        obtain ⟨_, _, hpid, hown, hg, hr⟩ := hm
+        exact ⟨o, List.getElem?_concat_length, by rw [hpid]; omega, by rw [hpid]; exact hown, hg, hr⟩
 
 /-- **C02_eq_iff_same_incarnation.** After any history, for any two objects (built at any two points of
     it): `a == b` is True exactly when they have the same PID and were built for the same process start. -/
@@ -266,7 +267,7 @@ def witnessStaleStr : List Ev := [.k (.spawn 8), .c (.newObj 8), .k (.reap 8), .
     holds, not the converse. -/
 theorem C02_status_stale_counterexample : ¬ StatusTerminatedIffNotListed_Full cfg := by
   intro H
-  have h0 : (run cfg (St.init 1000) witnessStaleStr).ps.objs[0]? = some ⟨8, 0 + cfg.clk * 1000, false, false, 0⟩ := by
+  have h0 : (run cfg (St.init 1000) witnessStaleStr).ps.objs[0]? = some ⟨8, some (0 + cfg.clk * 1000), some (0 + cfg.clk * 1000), false, false, 0⟩ := by
     decide
   have := (H 1000 (by decide) witnessStaleStr (by decide) 0 _ h0).2
     (by rw [← listedB_iff]; decide)
@@ -343,9 +344,9 @@ def IsRunningIffListed_Full (c : Cfg) : Prop :=
     the same live process compare unequal, and `is_running()` of the first one is False. -/
 theorem C02_bootrewrite_counterexample :
     ¬ EqIffSame_Full cfgBootRewrite ∧ ¬ IsRunningIffListed_Full cfgBootRewrite := by
-  have h0 : (run cfgBootRewrite (St.init 1000) witnessL2).ps.objs[0]? = some ⟨8, 100000, false, false, 0⟩ := by
+  have h0 : (run cfgBootRewrite (St.init 1000) witnessL2).ps.objs[0]? = some ⟨8, some 100000, some 100000, false, false, 0⟩ := by
     decide
-  have h1 : (run cfgBootRewrite (St.init 1000) witnessL2).ps.objs[1]? = some ⟨8, 101000, false, false, 0⟩ := by
+  have h1 : (run cfgBootRewrite (St.init 1000) witnessL2).ps.objs[1]? = some ⟨8, some 101000, some 101000, false, false, 0⟩ := by
     decide
   constructor
   · intro H
